@@ -229,5 +229,7 @@ def run(ctx):
     funcs = []
     for rel in SCOPE:
         funcs += ctx.project.module(rel).all_funcs
+    from .common import rule_cachekey
     return [rule_ord(ctx, funcs, prop='C03', rule='C03.ord', floor=5),
-            rule_pair(ctx)]
+            rule_pair(ctx),
+            rule_cachekey(ctx, 'C03', 'C03.cachekey', SCOPE)]
